@@ -33,11 +33,30 @@ def seeded():
         out.append(f"| `{name}` | {meta['property']} | {summ} | {', '.join(by) if by else '**missed**'} | {'; '.join(sorted(set(how)))} |")
     return "\n".join(out)
 
+def status():
+    """per-property numbers from the committed evidence files (quick tier, seed 0)"""
+    ties = {"C01": "G (T1/T2) + H", "C02": "H + G facts + T3 (strides)", "C03": "H + G facts", "C04": "H + G facts",
+            "C05": "H (4 seams) + G facts + T3 (tree, events, sweep)", "C06": "H + G + T3 (line, driver, direction)",
+            "C07": "G + H (model shared with C06)", "C08": "G (T1) + H", "C09": "G + H + T3 (convolution, apply x7, mean)",
+            "C10": "G (buffer programs, dask kinds) + H", "C11": "G (effect summaries) + H", "C12": "H + G facts + T3 (_cpu_bin)",
+            "C13": "G (T1) + H", "C14": "H + G facts + T3 (all of pathfinding)", "C15": "H + G facts (wrapper glue)",
+            "C16": "H + G facts + T3 (_area_connectivity)", "C17": "G facts + H", "C18": "G facts + H + T3 (_trim, _crop)",
+            "C19": "G (T1) + H"}
+    out = ["| id | theorems audited | tie | quick cases / distinct non-trivial | quick wall (s) | details |", "|---|---|---|---|---|---|"]
+    for i in range(1, 20):
+        pid = f"C{i:02d}"
+        ev = json.load(open(os.path.join(HERE, "evidence", pid + ".json")))
+        c = ev["coverage"]
+        out.append(f"| {pid} | {len(c.get('theorems', []))} | {ties[pid]} | {c.get('evaluations')} / {c.get('distinct_nontrivial')} | "
+                   f"{round(ev.get('wall_s', 0))} | `design_notes/{pid}.md` |")
+    return "\n".join(out)
+
+
 import sys
 if "--update" in sys.argv:
     p = os.path.join(HERE, "DESIGN.md")
     s = open(p).read()
-    for name, text in (("defects", defects()), ("seeded", seeded())):
+    for name, text in (("defects", defects()), ("seeded", seeded()), ("status", status())):
         a, b = f"<!-- BEGIN generated:{name} -->\n", f"<!-- END generated:{name} -->"
         i, j = s.index(a) + len(a), s.index(b)
         s = s[:i] + text + "\n" + s[j:]
